@@ -283,6 +283,10 @@ class Entity(ABC):
 
         if hasattr(parent, "add_children") and hasattr(parent, "remove_children"):
             parent.add_children([self])
+            if self not in parent.children:
+                # The parent does not take this kind of entity: nothing moves
+                return
+
             self._parent = parent
 
             if (
